@@ -439,7 +439,7 @@ class ConfigNode(metaclass=ConfigNodeMeta):
         if other._safe is not None:
             self._safe = notnone_or(self._safe, True) and other._safe
         if other._default_safe is not None:
-            self._default_safe = notnone_or(other._default_safe, True) and other._default_safe
+            self._default_safe = notnone_or(self._default_safe, True) and other._default_safe
         self._metadata = { **self._metadata, **other._metadata }
         if allow_promotions:
             ret = self._maybe_promote(other)
@@ -462,7 +462,7 @@ class ConfigNode(metaclass=ConfigNodeMeta):
         if other._safe is not None:
             self._safe = notnone_or(self._safe, True) and other._safe
         if other._default_safe is not None:
-            self._default_safe = notnone_or(other._default_safe, True) and other._default_safe
+            self._default_safe = notnone_or(self._default_safe, True) and other._default_safe
         self._metadata = { **other._metadata, **self._metadata }
         if allow_promotions:
             return self._maybe_promote(other)
